@@ -474,31 +474,37 @@ theorem C08_ascii_constructors (c : Ctor) (src w : Bytes) :
       simp only [construct]
       by_cases hl : HMap.legalValue src = true <;> simp [hl]
 
-/-- **Static keys.** `MetadataKey::<VE>::from_static` yields a key only for a name that is
-already in stored (lower-case) form and whose `-bin` suffix matches `VE`; otherwise it panics. -/
+/-- **Static keys.** `MetadataKey::<VE>::from_static` yields a key only for a string that is
+already in stored form (no upper case) and whose `-bin` suffix matches `VE`; otherwise it
+panics. -/
 theorem C08_static_key_category (enc : Enc) (src n : Bytes) (h : keyFromStatic .fixed enc src = some n) :
-    n = src ∧ HMap.normName src = some src ∧ ownCategory enc n = true := by
+    n = src ∧ MetaOps.staticName src = true ∧ ownCategory enc n = true := by
   unfold keyFromStatic nameFromStatic at h
-  by_cases hs : (!src.isEmpty && src.all (fun b => HMap.headerChar b == some b)) = true
+  by_cases hs : MetaOps.staticName src = true
   · simp only [hs, if_true] at h
     by_cases hv : validKey .fixed enc src = true
     · simp only [hv, if_true, Option.some.injEq] at h
       subst h
-      simp only [Bool.and_eq_true, Bool.not_eq_true', List.all_eq_true, beq_iff_eq] at hs
-      have hm : ∀ l : Bytes, (∀ b ∈ l, HMap.headerChar b = some b) → l.mapM HMap.headerChar = some l := by
-        intro l
-        induction l with
-        | nil => intro _; rfl
-        | cons b rest ih =>
-          intro hl
-          rw [List.mapM_cons, hl b (by simp), ih (fun x hx => hl x (by simp [hx]))]
-          rfl
-      have hnorm : HMap.normName src = some src := by
-        unfold HMap.normName
-        simp only [hs.1, Bool.false_eq_true, if_false]
-        exact hm src hs.2
-      refine ⟨rfl, hnorm, ?_⟩
-      have hb := isBinKey_fixed_stored src hnorm
+      refine ⟨rfl, hs, ?_⟩
+      -- a string in stored form is its own lower-casing, so the suffix test on it is the spec's
+      have hlowc : ∀ k : Fin 256, MetaOps.staticNameChar (UInt8.ofNat k.val) = true →
+          Ascii.toLower (UInt8.ofNat k.val) = UInt8.ofNat k.val := by decide +kernel
+      have hlow : src.map Ascii.toLower = src := by
+        simp only [MetaOps.staticName, Bool.and_eq_true, List.all_eq_true] at hs
+        have : ∀ l : Bytes, (∀ b ∈ l, MetaOps.staticNameChar b = true) → l.map Ascii.toLower = l := by
+          intro l
+          induction l with
+          | nil => intro _; rfl
+          | cons b rest ih =>
+            intro hl
+            have hb := hlowc ⟨b.toNat, b.toNat_lt⟩
+            simp only [UInt8.ofNat_toNat] at hb
+            rw [List.map_cons, hb (hl b (by simp)), ih (fun x hx => hl x (by simp [hx]))]
+        exact this src hs.2
+      have hb : isBinKey .fixed src = Spec.Metadata.isBinName src := by
+        unfold isBinKey
+        simp only []
+        rw [hlow, endsWith_bin_iff]
       cases enc <;> simp only [validKey, hb, ownCategory] at hv ⊢ <;>
         by_cases hx : Spec.Metadata.isBinName src = true <;> simp [hx] at hv ⊢
     · simp [hv] at h
